@@ -71,16 +71,21 @@ ForDest(d) == SelectSeq(failed, LAMBDA m : Msg(m).dest = d)
 NotForDest(d) == SelectSeq(failed, LAMBDA m : Msg(m).dest # d)
 Fail(p) == /\ pc[p] = "fail"
            /\ LET d == Msg(Cur(p)).dest
-                  f2 == Append(failed, Cur(p)) IN
+                  f2 == Append(failed, Cur(p))
+                  mine == SelectSeq(f2, LAMBDA m : Msg(m).dest = d) IN
               IF Recheck /\ d \in known
               THEN \* repaired code: the destination was registered meanwhile, the deferred messages for it are posted now
-                   /\ q' = EnqueueAll(q, SelectSeq(f2, LAMBDA m : Msg(m).dest = d))
+                   \* (after a shutdown the re-posts are dropped by post_msg, as in Register)
                    /\ failed' = SelectSeq(f2, LAMBDA m : Msg(m).dest # d)
-                   /\ beforeShut' = IF shut THEN beforeShut ELSE beforeShut \cup {m \in AllMids : InSeq(f2, m) /\ Msg(m).dest = d}
-              ELSE /\ failed' = f2 /\ UNCHANGED <<q, beforeShut>>
+                   /\ IF shut THEN /\ dropped' = dropped \cup {m \in AllMids : InSeq(mine, m)}
+                                    /\ UNCHANGED <<q, beforeShut>>
+                              ELSE /\ q' = EnqueueAll(q, mine)
+                                   /\ beforeShut' = beforeShut \cup {m \in AllMids : InSeq(mine, m)}
+                                   /\ dropped' = dropped
+              ELSE /\ failed' = f2 /\ UNCHANGED <<q, beforeShut, dropped>>
            /\ Advance(p)
            /\ act' = [n |-> "fail", p |-> p, m |-> Cur(p)]
-           /\ UNCHANGED <<known, cbs, shut, exited, handled, dropped, minOk>>
+           /\ UNCHANGED <<known, cbs, shut, exited, handled, minOk>>
 
 \* a late computation is registered on the agent (deployment): callbacks fire only if some post subscribed before
 Register(d) == /\ d \in LateDests \ known
@@ -145,7 +150,9 @@ ShutdownDrains == exited => \A m \in beforeShut : InSeq(handled, m)
 \* the queue as the agent will serve it: by type, FIFO within a type
 RECURSIVE QSeqOf(_)
 QSeqOf(T) == IF T = {} THEN <<>> ELSE LET t == CHOOSE x \in T : \A u \in T : x <= u IN q[t] \o QSeqOf(T \ {t})
-Proj == [pc |-> [p \in Posters |-> pc[p]], known |-> known, failed |-> failed, queue |-> QSeqOf(Types),
+\* (injective on the implementation variables: the replay walks the graph of projections)
+Proj == [pc |-> [p \in Posters |-> pc[p]], idx |-> [p \in Posters |-> idx[p]], known |-> known, cbs |-> cbs,
+         failed |-> failed, queue |-> QSeqOf(Types),
          handled |-> handled, shut |-> shut, exited |-> exited]
 Edge == PrintT(<<"EDGE", ToJson(Proj), ToJson(act'), ToJson(Proj')>>)
 View == <<impl, hist>>
